@@ -20,7 +20,7 @@ type c11Case struct {
 	Thr    float64   `json:"thr"`
 	Corpus corpusSel `json:"corpus"`
 	X      recipe    `json:"x"`
-	Ts     []xform   `json:"ts,omitempty"` // optional presentation changes applied first (decoration, case, blank lines ...)
+	Ts     []xform   `json:"ts,omitempty"`  // optional presentation changes applied first (decoration, case, blank lines ...)
 	Pad    int       `json:"pad,omitempty"` // a first line of exactly Pad ASCII bytes (newline included) in front of X: moves every later byte offset
 }
 
